@@ -628,8 +628,14 @@ pub fn gen_world(opts: &WorldOpts) -> World {
     let nmods = if opts.focus_unwind_expr { 1 + ch("dump.nmods.focus", 2) as usize } else { 1 + ch("dump.nmods", 6) as usize };
     let mut modules: Vec<ModSpec> = Vec::new();
     for i in 0..nmods {
-        let leaf = LEAVES[ch("dump.mod.leaf", LEAVES.len() as u32) as usize];
-        let dir = DIRS[ch("dump.mod.dir", DIRS.len() as u32) as usize];
+        let mut leaf = LEAVES[ch("dump.mod.leaf", LEAVES.len() as u32) as usize];
+        let mut dir = DIRS[ch("dump.mod.dir", DIRS.len() as u32) as usize];
+        // adversarial (and not where the symbol server path is derived from the name): a module
+        // without a name, or whose name is only separators / dots
+        if adv && !opts.need_debug_ids && chance("dump.mod.odd_name", 1, 8) {
+            probe("e4.module_odd_name");
+            (dir, leaf) = [("", ""), ("/", ""), ("C:\\", ""), ("", "."), ("", ".."), ("\\\\", ""), ("", " ")][ch("dump.mod.odd_name.which", 7) as usize];
+        }
         let size = [0x8000u32, 0x2000, 0x20000, 0x1000][ch("dump.mod.size", 4) as usize];
         // HTTP configurations: every module has a known server path; a Windows module may still
         // lack its CodeView record, in which case the supplier asks the server for the debug
@@ -672,6 +678,11 @@ pub fn gen_world(opts: &WorldOpts) -> World {
                 m.sym = Some(b);
                 m.hot = hot;
                 m.sym_kind = "consistent";
+            }
+            5 if opts.hostile_symbols && chance("dump.sym.load_error", 1, 2) => {
+                // the supplier fails to read this module's symbols (I/O error)
+                m.sym = None;
+                m.sym_kind = "load error";
             }
             5 => {
                 m.sym = None;
